@@ -100,6 +100,11 @@ CHECKS["C16"] = ("exploration",
     "For every constructor hyperparameter of the 18 estimators, of the GEMINI constructors, add_mlcl_constraint, print_kauri_tree and the 5 data functions, a probe menu of in-domain values (must be accepted) and out-of-domain values (just outside each interval end, 0, -1, None, wrong types) is applied with exactly one deviation from a valid base: out-of-domain must raise a ValueError/TypeError-family error before any optimiser step and leave no labels_. ALL lists of up to 3 non-empty groups over {-1..3} for d=3 (overlap, out of range, partial, full), the 2*min_samples_leaf vs min_samples_split grid, a malformed-data menu on all estimators and all public calls before fit complete it.",
     "Ambiguous values (bool for int, numpy scalars, lists where arrays are documented) are not probed.",
     "5/C16")
+CHECKS["C17"] = ("exploration",
+    "bounded-exhaustive enumeration of estimators x GEMINIs x solvers x degenerate data families with a finiteness monitor on every optimiser step of the real fit/path",
+    "All 18 estimators x 13 GEMINIs (generic models) x solver x data family {plain, x10, x1000, 1e-6 scale, constant column, duplicated column, duplicated rows, all rows equal, n=K} x n_clusters {1,3} x batch_size {None,1} x {fit, path}: no exception, every direction handed to the optimiser and every parameter after every step finite, finite weights, probabilities, score and path histories - a NaN hidden later by an arg-max is seen at the step where it appears.",
+    "n=6, d=3, 3 epochs; saturated-prediction behaviour of the GEMINIs themselves is covered by C13 on the closed simplex.",
+    "5/C17")
 NOT_APPLICABLE = {}
 
 def main():
